@@ -15,6 +15,7 @@ import c17_tensor  # noqa
 PID = 'C17'
 LTE_BINDING = (False, False)     # (g2l, l2g) rows bound by id? set from the translation
 TOL = Fr(1, 2 ** 40)
+TOL32 = Fr(1, 2 ** 16)          # float32 inputs: eigh/matmul run in single precision
 CANON = [0, 1, 2, 3, 4, 5]          # [11, 22, 33, 12, 23, 31]
 
 
@@ -149,6 +150,23 @@ def gen_cases(ctx):
         rows = [[dyadic(rng, 'mix') for _ in range(6)] for _ in range(2)]
         add({'kind': 'sym', 'a': [[pair(x) for x in r] for r in rows], 'order': order, 'eng': eng,
              'order_as': 'ndarray'})
+    # dtypes (float32 / int64 / int32), falsy and truthy non-bool flag values, a big batch
+    for _ in range(120 if thorough else 24):
+        dt = rng.choice(['float32', 'int64', 'int32', 'float64'])
+        eng = rng.random() < 0.6
+        if dt.startswith('int'):
+            rows = [[Fr(rng.randint(-50, 50)) for _ in range(6)] for _ in range(rng.randint(1, 3))]
+        else:
+            rows = [[Fr(rng.randint(-4096, 4096), 2 ** rng.randint(0, 8)) for _ in range(6)]
+                    for _ in range(rng.randint(1, 3))]
+        ev = rng.choice([True, 1, 'np.True_']) if eng else rng.choice([False, None, 0, 'np.False_'])
+        add({'kind': 'sym', 'a': [[pair(x) for x in r] for r in rows],
+             'order': rng.choice([None, rng.sample(range(6), 6)]), 'eng': eng, 'eng_value': ev,
+             'dtype': dt})
+    for _ in range(4 if thorough else 1):
+        rows = [[Fr(rng.randint(-4096, 4096), 8) for _ in range(6)] for _ in range(7)]
+        add({'kind': 'sym', 'a': [[pair(x) for x in r] for r in rows], 'order': rng.sample(range(6), 6),
+             'eng': rng.random() < 0.5, 'tile': 10001})          # 70 007 rows (> 65 536)
     # --- principal components / reconstruction
     reps = 20 if thorough else 1
     for _ in range(reps):
@@ -158,8 +176,16 @@ def gen_cases(ctx):
                 order = None if rng.random() < 0.4 else rng.sample(range(6), 6)
                 A = sym_from_eigs(M, lam)
                 a = array_from_matrix(A, eng, order)
-                add({'kind': 'pc', 'a': [[pair(x) for x in a]], 'order': order, 'eng': eng,
-                     'label': label})
+                c_ = {'kind': 'pc', 'order': order, 'eng': eng, 'label': label}
+                if rng.random() < 0.3:          # decimal length/stress scales: no longer dyadic
+                    sc = Fr(rng.choice(['0.0001', '0.01', '0.3', '10', '1000', '123456.7']))
+                    a = [Fr(float(x * sc)) for x in a]
+                    c_['scale'] = str(sc)
+                if rng.random() < 0.15:
+                    c_['dtype'] = 'float32'
+                    a = [Fr(float(__import__('numpy').float32(float(x)))) for x in a]
+                c_['a'] = [[pair(x) for x in a]]
+                add(c_)
     for _ in range(200 if thorough else 8):      # random integer / dyadic symmetric tensors
         n = rng.randint(1, 3)
         rows = [[dyadic(rng, rng.choice(['mid', 'int', 'small'])) for _ in range(6)] for _ in range(n)]
@@ -372,24 +398,36 @@ def oracle(c, r):
         return [('raised', r['error'])]
     k = c['kind']
     if k == 'sym':
-        a = [[Fr(*x) for x in row] for row in c['a']]
+        a = frm(r['a_head']) if c.get('tile') else [[Fr(*x) for x in row] for row in c['a']]
+        n_rows = len(c['a']) * c.get('tile', 1)
         b = frm(r['b'])
         if not r['a_unchanged']:
             bad.append(('caller-array-modified', 'convert_array2symmetric_matrix'))
         if not r['m_unchanged']:
             bad.append(('caller-array-modified', 'convert_symmetric_matrix2array'))
-        if r['m_shape'] != [len(a), 3, 3] or r['b_shape'] != [len(a), 6]:
+        if not r.get('same_call_twice', True):
+            bad.append(('same-call-twice-differs', ''))
+        if r['m_shape'] != [n_rows, 3, 3] or r['b_shape'] != [n_rows, 6]:
             bad.append(('shape', [r['m_shape'], r['b_shape']]))
-        elif b != a:
-            bad.append(('round-trip', 'm2a(a2m(a, order), inverse order) != a'))
+        elif b != a or not r.get('all_rows_roundtrip', True):
+            if c.get('dtype', 'float64').startswith('int') and c['eng']:
+                bad.append(('integer-dtype-engineering-truncation',
+                            {'a': [float(x) for x in a[0]], 'b': [float(x) for x in b[0]],
+                             'matrix_dtype': r.get('m_dtype')}))
+            else:
+                bad.append(('round-trip', 'm2a(a2m(a, order), inverse order) != a'))
         m = r['m']
-        if any(frs(mm[i][j]) != frs(mm[j][i]) for mm in m for i in range(3) for j in range(3)):
+        if any(frs(mm[i][j]) != frs(mm[j][i]) for mm in m for i in range(3) for j in range(3)) or \
+                not r.get('all_rows_symmetric', True):
             bad.append(('not-symmetric', ''))
         if not r['m_again_equal']:
             bad.append(('round-trip-matrix', 'a2m(m2a(M)) != M'))
     elif k == 'pc':
         if not r['a_unchanged'] or not r['eig_unchanged']:
             bad.append(('caller-array-modified', 'calculate_principal_components/from_eigens'))
+        if not r.get('same_call_twice', True):
+            bad.append(('same-call-twice-differs', ''))
+        T_ = TOL32 if c.get('dtype') == 'float32' else TOL
         for row, vals, dirs, vecs, reb in zip(c['a'], r['vals'], r['dirs'], r['vecs'], r['rebuilt']):
             a = [Fr(*x) for x in row]
             vals, dirs, vecs, reb = frv(vals), frv(dirs), frv(vecs), frv(reb)
@@ -397,16 +435,16 @@ def oracle(c, r):
                 bad.append(('nan', ''))
                 continue
             sc = scale_of(a)
-            tol = TOL * sc
+            tol = T_ * sc
             if not (vals[0] >= vals[1] >= vals[2]):
                 bad.append(('not-descending', [str(float(v)) for v in vals]))
             D = mat3_from_dirs(dirs)
             for p in range(3):
                 for q_ in range(3):
                     g = sum(D[i][p] * D[i][q_] for i in range(3))
-                    if abs(g - (1 if p == q_ else 0)) > TOL:
+                    if abs(g - (1 if p == q_ else 0)) > T_:
                         bad.append(('not-orthonormal', [p, q_, str(float(g))]))
-            if abs(det3(D) - 1) > TOL:
+            if abs(det3(D) - 1) > T_:
                 bad.append(('not-right-handed', str(float(det3(D)))))
             want = canon_of(a, c['eng'], c['order'])
             if any(abs(x - y) > tol for x, y in zip(reb, want)):
@@ -538,8 +576,9 @@ def coq_items(c, r):
     if 'error' in r:
         return [('0', 'false')]
     if k == 'sym':
-        for i, row in enumerate(c['a']):
-            a = [Fr(*x) for x in row]
+        rows_ = r['a_head'] if c.get('tile') else c['a']
+        for i, row in enumerate(rows_):
+            a = frv(row) if c.get('tile') else [Fr(*x) for x in row]
             out.append((str(i), f"chk_sym {qv(a)} {onl(c['order'])} {onl(r.get('inv'))} "
                         f"{str(c['eng']).lower()} {qm(frm(r['m'][i]))} {qv(frv(r['b'][i]))}"))
     elif k == 'pc':
@@ -549,7 +588,7 @@ def coq_items(c, r):
             if e is None:
                 out.append((str(i), 'false'))
                 continue
-            tol = TOL * scale_of(a) * 4
+            tol = (TOL32 if c.get('dtype') == 'float32' else TOL) * scale_of(a) * 4
             out.append((str(i), f"chk_pc {q(tol)} {qv(a)} {str(c['eng']).lower()} {onl(c['order'])} "
                         f"{qm(frm(e['m'][i]))} {qv(frv(e['w'][i]))} {qm(frm(e['v'][i]))} "
                         f"{qv(frv(r['vals'][i]))} {qv(frv(r['dirs'][i]))} {qv(frv(r['vecs'][i]))} "
@@ -673,6 +712,9 @@ def sig_of(c, what):
         s['eng'] = c['eng']
     if c['kind'] == 'sym':
         s['order'] = 'default' if c['order'] is None else ''.join(map(str, c['order']))
+    if c['kind'] == 'sym' and what == 'integer-dtype-engineering-truncation':
+        s = {'site': 'convert_array2symmetric_matrix', 'cause': 'integer dtype: shear / 2 truncated on assignment',
+             'from_engineering': True}
     if c['kind'] == 'lte' and what.endswith(':rows-attached-positionally'):
         s = {'site': 'convert_lte_global2local/convert_lte_local2global',
              'cause': 'rows attached positionally to elements.ids', 'ids_order_differs': True}
@@ -774,6 +816,14 @@ def main(ctx):
             ctx.count('eng:%s' % c['eng'])
         if c['kind'] in ('pc', 'inv') and 'label' in c:
             ctx.count('spectrum:' + c['label'])
+        if c['kind'] in ('sym', 'pc') and ('dtype' in c or 'eng_value' in c or 'tile' in c or 'scale' in c):
+            ctx.count('dtype:' + c.get('dtype', 'float64'))
+            if 'eng_value' in c:
+                ctx.count('flag_spelling:' + repr(c['eng_value']))
+            if 'tile' in c:
+                ctx.count('batch_rows:%d' % (len(c['a']) * c['tile']))
+            if 'scale' in c:
+                ctx.count('decimal_scale:' + c['scale'])
         if c['kind'] == 'lte':
             ctx.count('lte_ids:' + c.get('id_mode', '?'))
             ctx.count('lte_order_elements:' + c.get('order_elements', '?'))
